@@ -8,7 +8,9 @@
 (* State: nodes -- the program in post order.  A node carries, besides     *)
 (* what ArraySem needs (op, d, p, sh, dt), two typing attributes:          *)
 (*   ix : n > 0 when the node is integer valued with values certainly in   *)
-(*        0..n-1 (usable as index/dofmap), else 0                          *)
+(*        0..n-1 (usable as index/dofmap), else 0; on a complex node       *)
+(*        ix = 1 marks "integer valued, zero imaginary part" (usable as    *)
+(*        exponent of a complex Power, which the model defines only then)  *)
 (*   lp : set of loop ids the node depends on (free loops)                 *)
 (* Normal form: every new non-leaf node uses the last node as an operand   *)
 (* (every DAG has such a construction order), sharing of earlier nodes is  *)
@@ -74,8 +76,35 @@ LeafPool == <<
   Leaf("Const", <<0, 1, 1, 1, 1, 1, 3, 1>>, <<4>>, "i", 4, {}),           \* 37 [0, 1, 1, 3] (non-decreasing, repeated)
   Leaf("Const", <<2, 1, 2, 1, 4, 1>>, <<3>>, "i", 5, {}),                 \* 38 [2, 2, 4]
   Leaf("Const", <<2, 1, 0, 1, 1, 1>>, <<3>>, "i", 3, {}),                 \* 39 [2, 0, 1] (permutation of 3)
-  Leaf("Arg", <<9>>, <<4>>, "f", 0, {})                                   \* 40 length-4 argument
+  Leaf("Arg", <<9>>, <<4>>, "f", 0, {}),                                  \* 40 length-4 argument
+  \* ---- 41.. : extended vocabulary (not in AllLeaves; used by dedicated families)
+  Leaf("Arg", <<10>>, <<2>>, "c", 0, {}),                                 \* 41 complex argument
+  Leaf("Arg", <<11>>, <<>>, "c", 0, {}),                                  \* 42 complex scalar argument
+  Leaf("Arg", <<12>>, <<2, 2>>, "c", 0, {}),                              \* 43 complex 2x2 argument
+  Leaf("Const", <<1, 1, 1, 1, 0, 1, -1, 1>>, <<2>>, "c", 0, {}),          \* 44 [1+1i, -1i]
+  Leaf("Const", <<2, 1, 0, 1>>, <<>>, "c", 1, {}),                        \* 45 2+0i (integer exponent)
+  Leaf("Const", <<3, 1, 0, 1>>, <<>>, "c", 1, {}),                        \* 46 3+0i
+  Leaf("Const", <<-1, 1, 0, 1>>, <<>>, "c", 1, {}),                       \* 47 -1+0i
+  Leaf("Const", <<0, 1, 1, 1>>, <<>>, "c", 0, {}),                        \* 48 1i
+  Leaf("Const", <<1, 1, 1, 1, 1, 1, 0, 1, 0, 1, 0, 1, 1, 1, -1, 1>>, <<2, 2>>, "c", 0, {}),  \* 49 [[1+1i, 1], [0, 1-1i]] (det 2)
+  Leaf("Zeros", <<>>, <<2>>, "c", 0, {}),                                 \* 50 complex zeros
+  Leaf("Const", <<2, 1, 0, 1, 2, 1, 0, 1>>, <<2>>, "c", 1, {}),           \* 51 [2+0i, 2+0i] (uniform integer exponent)
+  Leaf("Const", <<1, 2, -1, 1>>, <<>>, "c", 0, {}),                       \* 52 .5-1i
+  Leaf("Const", <<1, 1, -1, 1, 2, 1, 0, 1, 1, 2, 3, 1>>, <<6>>, "f", 0, {}),  \* 53 [1, -1, 2, 0, .5, 3] (6 coefficients: 2 variables, degree 2)
+  Leaf("Arg", <<13>>, <<6>>, "f", 0, {}),                                 \* 54 length-6 argument
+  Leaf("Const", <<1, 1, 2, 1, -1, 1, 0, 1, 3, 1, 1, 1>>, <<2, 3>>, "f", 0, {}),  \* 55 [[1, 2, -1], [0, 3, 1]] (two coefficient rows)
+  Leaf("Const", <<1, 1>>, <<>>, "i", 2, {}),                              \* 56 1 (int)
+  Leaf("Const", <<1, 2, 2, 1>>, <<2>>, "f", 0, {})                        \* 57 [.5, 2.]
 >>
+
+\* fixed environment for the model-internal sanity invariants (and for evaluating loop dependent lengths, which do
+\* not depend on arguments)
+TestEnv == << ArgArr(<<2>>, <<1, 2>>, 0), ArgArr(<<2, 2>>, <<1, 2, 3, 5>>, 0), ArgArr(<<>>, <<2>>, 0),
+              ArgArr(<<3>>, <<1, 2, 3>>, 0), ArgArr(<<2>>, <<1, 0>>, 0), ArgArr(<<2>>, <<1, 0>>, 0),
+              ArgArr(<<2, 2, 2>>, <<1, 2, 3, 4, 5, 6, 7, 9>>, 0), ArgArr(<<3, 3>>, <<2, 1, 0, 1, 3, 1, 0, 1, 2>>, 0),
+              ArgArr(<<4>>, <<1, 2, 3, 4>>, 0),
+              ArgArr(<<2>>, <<1, 2, 2, -1>>, 0), ArgArr(<<>>, <<2, 1>>, 0), ArgArr(<<2, 2>>, <<1, 2, 0, 1, 1, 0, -1, 2>>, 0),
+              ArgArr(<<6>>, <<1, 2, -1, 3, 0, 2>>, 0) >>
 
 IsLeaf(n) == Len(n.d) = 0
 NOps == Cardinality({k \in 1..Len(nodes) : ~IsLeaf(nodes[k])})
@@ -87,6 +116,10 @@ Nd(k) == nodes[k]
 Num(dt) == dt \in {"i", "f"}
 Rank(k) == Len(Nd(k).sh)
 LastLen(k) == Nd(k).sh[Rank(k)]
+\* loop dependent axis lengths: a negative shape entry -k is the value of the scalar integer node k.  Only the LAST axis of
+\* a node may be dynamic; most constructors demand static operands, the exceptions are noted at the actions.
+Static(k) == \A i \in 1..Rank(k) : Nd(k).sh[i] >= 0
+DynLast(k) == Rank(k) >= 1 /\ LastLen(k) < 0
 
 Push(n) == nodes' = Append(nodes, n) /\ UNCHANGED fam
 
@@ -107,22 +140,33 @@ Binary(op, dts, rdt) ==
     /\ \E ij \in Pairs : /\ Same(ij[1], ij[2]) /\ Nd(ij[1]).dt \in dts
                          /\ Push(Node(op, <<ij[1], ij[2]>>, <<>>, Nd(ij[1]).sh, IF rdt = "same" THEN Nd(ij[1]).dt ELSE rdt, 0, Lp2(ij[1], ij[2])))
 
-\* Power: float base any float exponent; int base only constant non-negative exponents
+\* Power: float base any float exponent; int base only constant non-negative exponents; complex base with an
+\* integer-valued complex exponent (ix = 1)
 APower == /\ "Power" \in Ops
-          /\ \E ij \in Pairs : /\ Same(ij[1], ij[2]) /\ Nd(ij[1]).dt \in {"f", "i"}
-                               /\ (Nd(ij[1]).dt = "i" => Nd(ij[2]).ix > 0)
+          /\ \E ij \in Pairs : /\ Same(ij[1], ij[2]) /\ Nd(ij[1]).dt \in {"f", "i", "c"}
+                               /\ (Nd(ij[1]).dt \in {"i", "c"} => Nd(ij[2]).ix > 0)
                                /\ Push(Node("Power", <<ij[1], ij[2]>>, <<>>, Nd(ij[1]).sh, Nd(ij[1]).dt, 0, Lp2(ij[1], ij[2])))
 
 ACast == \/ /\ "BoolToInt" \in Ops /\ L >= 1 /\ Nd(L).dt = "b"
             /\ Push(Node("BoolToInt", <<L>>, <<>>, Nd(L).sh, "i", 2, Nd(L).lp))
          \/ /\ "IntToFloat" \in Ops /\ L >= 1 /\ Nd(L).dt = "i"
             /\ Push(Node("IntToFloat", <<L>>, <<>>, Nd(L).sh, "f", 0, Nd(L).lp))
+         \/ /\ "FloatToComplex" \in Ops /\ L >= 1 /\ Nd(L).dt = "f"
+            /\ Push(Node("FloatToComplex", <<L>>, <<>>, Nd(L).sh, "c", 0, Nd(L).lp))
 
-AInsert == /\ "InsertAxis" \in Ops /\ L >= 1 /\ Rank(L) <= 2
+\* complex -> float parts, conjugation, modulus (Absolute of a complex operand is float)
+AComplex == \/ \E op \in {"Real", "Imag"} \cap Ops : /\ L >= 1 /\ Nd(L).dt = "c"
+                                                     /\ Push(Node(op, <<L>>, <<>>, Nd(L).sh, "f", 0, Nd(L).lp))
+            \/ /\ "Conjugate" \in Ops /\ L >= 1 /\ Nd(L).dt = "c"
+               /\ Push(Node("Conjugate", <<L>>, <<>>, Nd(L).sh, "c", Nd(L).ix, Nd(L).lp))
+            \/ /\ "Absolute" \in Ops /\ L >= 1 /\ Nd(L).dt = "c"
+               /\ Push(Node("Absolute", <<L>>, <<>>, Nd(L).sh, "f", 0, Nd(L).lp))
+
+AInsert == /\ "InsertAxis" \in Ops /\ L >= 1 /\ Rank(L) <= 2 /\ Static(L)
            /\ \E n \in {1, 2, 3} : Push(Node("InsertAxis", <<L>>, <<n>>, Append(Nd(L).sh, n), Nd(L).dt, Nd(L).ix, Nd(L).lp))
 
 Perms(r) == IF r = 2 THEN {<<1, 0>>} ELSE IF r = 3 THEN {<<0, 2, 1>>, <<1, 0, 2>>, <<1, 2, 0>>, <<2, 0, 1>>, <<2, 1, 0>>} ELSE {}
-ATransp == /\ "Transpose" \in Ops /\ L >= 1
+ATransp == /\ "Transpose" \in Ops /\ L >= 1 /\ Static(L)
            /\ \E axes \in Perms(Rank(L)) :
                 Push(Node("Transpose", <<L>>, axes, [i \in 1..Rank(L) |-> Nd(L).sh[axes[i] + 1]], Nd(L).dt, Nd(L).ix, Nd(L).lp))
 
@@ -132,45 +176,46 @@ AReduce == \E op \in {"Sum", "Product"} \cap Ops :
 
 \* Take(func, indices): along the last axis of func
 ATakeOp == /\ "Take" \in Ops
-           /\ \E ij \in Pairs : /\ Rank(ij[1]) >= 1 /\ Nd(ij[2]).dt = "i" /\ Nd(ij[2]).ix > 0
+           /\ \E ij \in Pairs : /\ Rank(ij[1]) >= 1 /\ Nd(ij[2]).dt = "i" /\ Nd(ij[2]).ix > 0 /\ Static(ij[1])     \* the indices may be dynamic
                                 /\ Nd(ij[2]).ix <= LastLen(ij[1])
                                 /\ Rank(ij[1]) - 1 + Rank(ij[2]) <= 3
                                 /\ Push(Node("Take", <<ij[1], ij[2]>>, <<>>, SFront(Nd(ij[1]).sh) \o Nd(ij[2]).sh,
                                              Nd(ij[1]).dt, Nd(ij[1]).ix, Lp2(ij[1], ij[2])))
 
-ATakeDiagOp == /\ "TakeDiag" \in Ops /\ L >= 1 /\ Rank(L) >= 2 /\ Nd(L).sh[Rank(L)] = Nd(L).sh[Rank(L) - 1]
+ATakeDiagOp == /\ "TakeDiag" \in Ops /\ L >= 1 /\ Rank(L) >= 2 /\ Static(L) /\ Nd(L).sh[Rank(L)] = Nd(L).sh[Rank(L) - 1]
                /\ Push(Node("TakeDiag", <<L>>, <<>>, SFront(Nd(L).sh), Nd(L).dt, Nd(L).ix, Nd(L).lp))
 
-ADiagOp == /\ "Diagonalize" \in Ops /\ L >= 1 /\ Rank(L) >= 1 /\ Rank(L) <= 2
+ADiagOp == /\ "Diagonalize" \in Ops /\ L >= 1 /\ Rank(L) >= 1 /\ Rank(L) <= 2 /\ Static(L)
            /\ Push(Node("Diagonalize", <<L>>, <<>>, Append(Nd(L).sh, LastLen(L)), Nd(L).dt, 0, Nd(L).lp))
 
-\* Inflate(func, dofmap, length): func.shape ends with dofmap.shape
+\* Inflate(func, dofmap, length): func.shape ends with dofmap.shape (both may end in the same dynamic axis)
 AInflateOp == /\ "Inflate" \in Ops
               /\ \E ij \in Pairs : \E len \in {2, 3} :
-                    /\ Nd(ij[1]).dt \in {"f", "i", "b"} /\ Nd(ij[2]).dt = "i" /\ Nd(ij[2]).ix > 0 /\ Nd(ij[2]).ix <= len
+                    /\ Nd(ij[1]).dt \in {"f", "i", "b", "c"} /\ Nd(ij[2]).dt = "i" /\ Nd(ij[2]).ix > 0 /\ Nd(ij[2]).ix <= len
                     /\ Rank(ij[2]) <= Rank(ij[1])
                     /\ SubSeq(Nd(ij[1]).sh, Rank(ij[1]) - Rank(ij[2]) + 1, Rank(ij[1])) = Nd(ij[2]).sh
                     /\ Push(Node("Inflate", <<ij[1], ij[2]>>, <<len>>,
                                  Append(SubSeq(Nd(ij[1]).sh, 1, Rank(ij[1]) - Rank(ij[2])), len), Nd(ij[1]).dt, 0, Lp2(ij[1], ij[2])))
 
-ARavelOp == /\ "Ravel" \in Ops /\ L >= 1 /\ Rank(L) >= 2
+ARavelOp == /\ "Ravel" \in Ops /\ L >= 1 /\ Rank(L) >= 2 /\ Static(L)
             /\ Push(Node("Ravel", <<L>>, <<>>, Append(SubSeq(Nd(L).sh, 1, Rank(L) - 2), Nd(L).sh[Rank(L) - 1] * LastLen(L)),
                          Nd(L).dt, Nd(L).ix, Nd(L).lp))
 
-AUnravelOp == /\ "Unravel" \in Ops /\ L >= 1 /\ Rank(L) >= 1 /\ Rank(L) <= 2
+AUnravelOp == /\ "Unravel" \in Ops /\ L >= 1 /\ Rank(L) >= 1 /\ Rank(L) <= 2 /\ Static(L)
               /\ \E s \in {<<1, 2>>, <<2, 1>>, <<2, 2>>, <<1, 3>>, <<3, 1>>, <<2, 3>>, <<3, 2>>, <<1, 1>>} :
                     /\ s[1] * s[2] = LastLen(L)
                     /\ Push(Node("Unravel", <<L>>, s, SFront(Nd(L).sh) \o s, Nd(L).dt, Nd(L).ix, Nd(L).lp))
 
 ARavelIndexOp == /\ "RavelIndex" \in Ops
                  /\ \E ij \in Pairs : /\ Nd(ij[1]).ix > 0 /\ Nd(ij[2]).ix > 0 /\ Rank(ij[1]) + Rank(ij[2]) <= 3
+                                      /\ Nd(ij[1]).dt = "i" /\ Nd(ij[2]).dt = "i" /\ Static(ij[1]) /\ Static(ij[2])
                                       /\ Push(Node("RavelIndex", <<ij[1], ij[2]>>, <<Nd(ij[1]).ix, Nd(ij[2]).ix>>,
                                                    Nd(ij[1]).sh \o Nd(ij[2]).sh, "i", Nd(ij[1]).ix * Nd(ij[2]).ix, Lp2(ij[1], ij[2])))
 
 \* Choose(index, choices): choices.shape = index.shape ++ <<nchoices>>
 AChooseOp == /\ "Choose" \in Ops
-             /\ \E ij \in Pairs : /\ Nd(ij[1]).ix > 0 /\ Rank(ij[2]) = Rank(ij[1]) + 1
-                                  /\ SFront(Nd(ij[2]).sh) = Nd(ij[1]).sh /\ Nd(ij[1]).ix <= LastLen(ij[2])
+             /\ \E ij \in Pairs : /\ Nd(ij[1]).ix > 0 /\ Nd(ij[1]).dt = "i" /\ Rank(ij[2]) = Rank(ij[1]) + 1
+                                  /\ SFront(Nd(ij[2]).sh) = Nd(ij[1]).sh /\ Nd(ij[1]).ix <= LastLen(ij[2]) /\ Static(ij[2])
                                   /\ Push(Node("Choose", <<ij[1], ij[2]>>, <<>>, Nd(ij[1]).sh, Nd(ij[2]).dt, 0, Lp2(ij[1], ij[2])))
 
 \* InRange(index, length) turns an arbitrary integer node into an index
@@ -178,32 +223,167 @@ AInRangeOp == /\ "InRange" \in Ops /\ L >= 1 /\ Nd(L).dt = "i" /\ Nd(L).ix = 0
               /\ \E n \in {2, 3} : Push(Node("InRange", <<L>>, <<n>>, Nd(L).sh, "i", n, Nd(L).lp))
 
 ALinalg == \E op \in {"Determinant", "Inverse"} \cap Ops :
-              /\ L >= 1 /\ Nd(L).dt = "f" /\ Rank(L) >= 2 /\ LastLen(L) = Nd(L).sh[Rank(L) - 1] /\ LastLen(L) <= 2
-              /\ Push(Node(op, <<L>>, <<>>, IF op = "Inverse" THEN Nd(L).sh ELSE SubSeq(Nd(L).sh, 1, Rank(L) - 2), "f", 0, Nd(L).lp))
+              /\ L >= 1 /\ Nd(L).dt \in {"f", "c"} /\ Rank(L) >= 2 /\ Static(L) /\ LastLen(L) = Nd(L).sh[Rank(L) - 1] /\ LastLen(L) <= 2
+              /\ Push(Node(op, <<L>>, <<>>, IF op = "Inverse" THEN Nd(L).sh ELSE SubSeq(Nd(L).sh, 1, Rank(L) - 2), Nd(L).dt, 0, Nd(L).lp))
 
-\* Polyval(coeffs, points) in one variable: points.shape[-1] = 1
+\* Polyval(coeffs, points): points.shape[-1] = number of variables (1 or 2; 2 only in vocabularies with "PolyGrad",
+\* which keeps the base vocabulary as it was); the number of coefficients must be that of some degree
 APolyvalOp == /\ "Polyval" \in Ops
               /\ \E ij \in Pairs : /\ Nd(ij[1]).dt = "f" /\ Nd(ij[2]).dt = "f" /\ Rank(ij[1]) >= 1 /\ Rank(ij[2]) >= 1
-                                   /\ LastLen(ij[2]) = 1 /\ Rank(ij[1]) + Rank(ij[2]) - 2 <= 3
+                                   /\ Static(ij[1]) /\ Static(ij[2])
+                                   /\ (LastLen(ij[2]) = 1 \/ (LastLen(ij[2]) = 2 /\ "PolyGrad" \in Ops))
+                                   /\ LastLen(ij[1]) >= 1 /\ PolyDeg(LastLen(ij[2]), LastLen(ij[1])) >= 0
+                                   /\ Rank(ij[1]) + Rank(ij[2]) - 2 <= 3
                                    /\ Push(Node("Polyval", <<ij[1], ij[2]>>, <<>>, SFront(Nd(ij[2]).sh) \o SFront(Nd(ij[1]).sh), "f", 0, Lp2(ij[1], ij[2])))
 
+\* PolyMul(left, right, vars): vars[v] = 0 (left only), 1 (right only), 2 (both)
+PolyVarsSet == {<<2>>, <<0, 1>>, <<1, 0>>, <<2, 2>>, <<0, 2>>, <<2, 1>>}
+APolyMulOp == /\ "PolyMul" \in Ops
+              /\ \E ij \in Pairs : \E vars \in PolyVarsSet :
+                    LET nvl == Cardinality({v \in 1..Len(vars) : vars[v] # 1})
+                        nvr == Cardinality({v \in 1..Len(vars) : vars[v] # 0})
+                    IN /\ Nd(ij[1]).dt = "f" /\ Nd(ij[2]).dt = "f" /\ Rank(ij[1]) \in {1, 2} /\ Rank(ij[2]) = Rank(ij[1])
+                       /\ Static(ij[1]) /\ Static(ij[2])
+                       /\ SFront(Nd(ij[1]).sh) = SFront(Nd(ij[2]).sh) /\ LastLen(ij[1]) >= 1 /\ LastLen(ij[2]) >= 1
+                       /\ PolyDeg(nvl, LastLen(ij[1])) >= 0 /\ PolyDeg(nvr, LastLen(ij[2])) >= 0
+                       /\ PolyDeg(nvl, LastLen(ij[1])) + PolyDeg(nvr, LastLen(ij[2])) <= 3
+                       /\ Push(Node("PolyMul", <<ij[1], ij[2]>>, vars,
+                                    Append(SFront(Nd(ij[1]).sh), PolyNC(Len(vars), PolyDeg(nvl, LastLen(ij[1])) + PolyDeg(nvr, LastLen(ij[2])))),
+                                    "f", 0, Lp2(ij[1], ij[2])))
+APolyGradOp == /\ "PolyGrad" \in Ops /\ L >= 1 /\ Nd(L).dt = "f" /\ Rank(L) \in {1, 2} /\ Static(L) /\ LastLen(L) >= 1
+               /\ \E nv \in {1, 2} :
+                     /\ PolyDeg(nv, LastLen(L)) >= 0
+                     /\ Push(Node("PolyGrad", <<L>>, <<nv>>,
+                                  SFront(Nd(L).sh) \o <<nv, PolyNC(nv, IF PolyDeg(nv, LastLen(L)) > 0 THEN PolyDeg(nv, LastLen(L)) - 1 ELSE 0)>>,
+                                  "f", 0, Nd(L).lp))
+\* PolyNCoeffs(nvars, degree), PolyDegree(ncoeffs, nvars) on scalar integer nodes
+APolyCountOp == \/ /\ "PolyNCoeffs" \in Ops /\ L >= 1 /\ Nd(L).dt = "i" /\ Rank(L) = 0 /\ Nd(L).ix > 0 /\ Nd(L).ix - 1 <= 4
+                   /\ \E nv \in {1, 2} : Push(Node("PolyNCoeffs", <<L>>, <<nv>>, <<>>, "i", PolyNC(nv, Nd(L).ix - 1) + 1, Nd(L).lp))
+                \/ /\ "PolyDegree" \in Ops /\ L >= 1 /\ Nd(L).dt = "i" /\ Rank(L) = 0 /\ Nd(L).ix > 0
+                   /\ \E nv \in {1, 2} : /\ (nv = 1 \/ (Nd(L).op = "PolyNCoeffs" /\ Nd(L).p = <<nv>>))
+                                         /\ Push(Node("PolyDegree", <<L>>, <<nv>>, <<>>, "i", Nd(L).ix, Nd(L).lp))
+ALegendreOp == /\ "Legendre" \in Ops /\ L >= 1 /\ Nd(L).dt = "f" /\ Rank(L) <= 2 /\ Static(L)
+               /\ \E deg \in {0, 2, 3} : Push(Node("Legendre", <<L>>, <<deg>>, Append(Nd(L).sh, deg + 1), "f", 0, Nd(L).lp))
+
+\* Einsum(args, args_idx, out_idx) over a table of small index patterns (labels 0, 1, 2): transposed output,
+\* diagonal / trace (repeated label in one operand), contraction, outer product, elementwise, three operands
+EsPat(ranks, idx, out) == [ranks |-> ranks, idx |-> idx, out |-> out]
+EsPatterns == {
+    EsPat(<<2>>, <<<<0, 1>>>>, <<1, 0>>),                      \* ij->ji
+    EsPat(<<2>>, <<<<0, 0>>>>, <<0>>),                         \* ii->i
+    EsPat(<<2>>, <<<<0, 0>>>>, <<>>),                          \* ii->
+    EsPat(<<2>>, <<<<0, 1>>>>, <<1>>),                         \* ij->j
+    EsPat(<<1>>, <<<<0>>>>, <<>>),                             \* i->
+    EsPat(<<3>>, <<<<0, 1, 0>>>>, <<1, 0>>),                   \* iji->ji
+    EsPat(<<1, 1>>, <<<<0>>, <<0>>>>, <<>>),                   \* i,i->
+    EsPat(<<1, 1>>, <<<<0>>, <<0>>>>, <<0>>),                  \* i,i->i
+    EsPat(<<1, 1>>, <<<<0>>, <<1>>>>, <<1, 0>>),               \* i,j->ji
+    EsPat(<<2, 1>>, <<<<0, 1>>, <<1>>>>, <<0>>),               \* ij,j->i
+    EsPat(<<2, 1>>, <<<<0, 1>>, <<0>>>>, <<1, 0>>),            \* ij,i->ji
+    EsPat(<<1, 2>>, <<<<0>>, <<0, 1>>>>, <<1>>),               \* i,ij->j
+    EsPat(<<2, 2>>, <<<<0, 1>>, <<1, 2>>>>, <<0, 2>>),         \* ij,jk->ik
+    EsPat(<<2, 2>>, <<<<0, 1>>, <<1, 2>>>>, <<2, 0>>),         \* ij,jk->ki
+    EsPat(<<2, 2>>, <<<<0, 1>>, <<1, 0>>>>, <<>>),             \* ij,ji->
+    EsPat(<<2, 2>>, <<<<0, 1>>, <<0, 1>>>>, <<1>>),            \* ij,ij->j
+    EsPat(<<0, 1>>, <<<<>>, <<0>>>>, <<0>>),                   \* ,i->i
+    EsPat(<<1, 1, 1>>, <<<<0>>, <<1>>, <<1>>>>, <<0>>),        \* i,j,j->i
+    EsPat(<<2, 1, 1>>, <<<<0, 1>>, <<0>>, <<1>>>>, <<>>)       \* ij,i,j->
+}
+EsEncode(pat) == LET f(q) == <<Len(q)>> \o q IN
+                 IF Len(pat.idx) = 1 THEN f(pat.out) \o f(pat.idx[1])
+                 ELSE IF Len(pat.idx) = 2 THEN f(pat.out) \o f(pat.idx[1]) \o f(pat.idx[2])
+                 ELSE f(pat.out) \o f(pat.idx[1]) \o f(pat.idx[2]) \o f(pat.idx[3])
+\* operands ds fit pattern pat: ranks, equal non-boolean dtypes, equal lengths wherever a label recurs
+EsFits(pat, ds) ==
+    /\ \A i \in 1..Len(ds) : Rank(ds[i]) = pat.ranks[i] /\ Nd(ds[i]).dt = Nd(ds[1]).dt /\ Static(ds[i])
+    /\ Nd(ds[1]).dt \in {"i", "f", "c"}
+    /\ \A i \in 1..Len(ds), k \in 1..Len(ds) : \A j \in 1..pat.ranks[i], m \in 1..pat.ranks[k] :
+          pat.idx[i][j] = pat.idx[k][m] => Nd(ds[i]).sh[j] = Nd(ds[k]).sh[m]
+EsShape(pat, ds) == [q \in 1..Len(pat.out) |->
+                       LET i == CHOOSE i \in 1..Len(ds) : EsIn(pat.idx[i], pat.out[q]) IN Nd(ds[i]).sh[EsPos(pat.idx[i], pat.out[q])]]
+AEinsumOp == /\ "Einsum" \in Ops /\ L >= 1
+             /\ \E pat \in EsPatterns :
+                   \E ds \in (IF Len(pat.ranks) = 1 THEN {<<L>>}
+                              ELSE IF Len(pat.ranks) = 2 THEN {<<ij[1], ij[2]>> : ij \in Pairs}
+                              ELSE {<<ij[1], ij[2], ij[2]>> : ij \in Pairs}) :
+                       /\ EsFits(pat, ds)
+                       /\ Push(Node("Einsum", ds, EsEncode(pat), EsShape(pat, ds), Nd(ds[1]).dt, 0,
+                                    UNION {Nd(ds[i]).lp : i \in 1..Len(ds)}))
+
 LoopLen(l) == IF l = 1 THEN 2 ELSE 3
-ALoopSumOp == /\ "LoopSum" \in Ops /\ L >= 1 /\ Nd(L).dt \in {"i", "f"}
+ALoopSumOp == /\ "LoopSum" \in Ops /\ L >= 1 /\ Nd(L).dt \in {"i", "f", "c"} /\ Static(L)
               /\ \E l \in Nd(L).lp : Push(Node("LoopSum", <<L>>, <<l, LoopLen(l)>>, Nd(L).sh, Nd(L).dt, 0, Nd(L).lp \ {l}))
-ALoopConcatOp == /\ "LoopConcat" \in Ops /\ L >= 1 /\ Rank(L) >= 1 /\ LastLen(L) * 3 <= 9
-                 /\ \E l \in Nd(L).lp : Push(Node("LoopConcat", <<L>>, <<l, LoopLen(l), LastLen(L)>>,
-                                                  Append(SFront(Nd(L).sh), LastLen(L) * LoopLen(l)), Nd(L).dt, 0, Nd(L).lp \ {l}))
+\* value of the length node k at iteration i of loop l (length nodes do not depend on arguments)
+LenAt(k, l, i) == LenVal(Ev(nodes, k, TestEnv, [<<0, 0>> EXCEPT ![l] = i]))
+RECURSIVE LenTotal(_, _, _)
+LenTotal(k, l, i) == IF i < 0 THEN 0 ELSE LenAt(k, l, i) + LenTotal(k, l, i - 1)
+ALoopConcatOp == \/ /\ "LoopConcat" \in Ops /\ L >= 1 /\ Rank(L) >= 1 /\ Static(L) /\ LastLen(L) * 3 <= 9
+                    /\ \E l \in Nd(L).lp : Push(Node("LoopConcat", <<L>>, <<l, LoopLen(l), LastLen(L)>>,
+                                                     Append(SFront(Nd(L).sh), LastLen(L) * LoopLen(l)), Nd(L).dt, 0, Nd(L).lp \ {l}))
+                 \* element dependent chunk sizes: the last axis has the loop dependent length of node k = -LastLen(L); the
+                 \* concatenated length is the sum of that node's values over the loop (chunk size parameter 0)
+                 \/ /\ "LoopConcat" \in Ops /\ L >= 1 /\ DynLast(L)
+                    /\ \E l \in Nd(L).lp : /\ Nd(-LastLen(L)).lp = {l}
+                                           /\ Push(Node("LoopConcat", <<L>>, <<l, LoopLen(l), 0>>,
+                                                        Append(SFront(Nd(L).sh), LenTotal(-LastLen(L), l, LoopLen(l) - 1)), Nd(L).dt, 0, Nd(L).lp \ {l}))
+
+\* nodes usable as a loop dependent axis length: scalar integer, values certainly in 0..3, independent of arguments,
+\* dependent on exactly one loop
+LenNode(k) == Nd(k).dt = "i" /\ Rank(k) = 0 /\ Nd(k).ix > 0 /\ Nd(k).ix <= 4 /\ Cardinality(Nd(k).lp) = 1 /\ ~DepArg(nodes, k)
+\* Range(length node), InsertAxis(func, length node)
+ADynOp == \/ /\ "RangeN" \in Ops /\ L >= 1 /\ LenNode(L)
+             /\ Push(Node("RangeN", <<L>>, <<>>, <<-L>>, "i", IF Nd(L).ix > 1 THEN Nd(L).ix - 1 ELSE 1, Nd(L).lp))
+          \/ /\ "InsertAxisN" \in Ops
+             /\ \E ij \in Pairs : /\ LenNode(ij[2]) /\ Static(ij[1]) /\ Rank(ij[1]) <= 1 /\ ij[1] # ij[2]
+                                  /\ Push(Node("InsertAxisN", <<ij[1], ij[2]>>, <<>>, Append(Nd(ij[1]).sh, -ij[2]), Nd(ij[1]).dt, Nd(ij[1]).ix, Lp2(ij[1], ij[2])))
+
+\* ---- integer / search constructors
+ASearchOp ==
+    \* Find(where): the (data dependent) length is Sum(BoolToInt(where)), which must be the last node: static when closed,
+    \* else a loop dependent length; where must not depend on arguments
+    \/ /\ "Find" \in Ops /\ L >= 3 /\ Nd(L).op = "Sum" /\ Nd(Nd(L).d[1]).op = "BoolToInt" /\ Rank(L) = 0 /\ ~DepArg(nodes, L)
+       /\ Cardinality(Nd(L).lp) <= 1
+       /\ LET w == Nd(Nd(L).d[1]).d[1] IN
+             /\ Static(w) /\ LastLen(w) <= 3
+             /\ Push(Node("Find", <<w, L>>, <<>>, IF Nd(L).lp = {} THEN <<LenVal(Ev(nodes, L, TestEnv, <<0, 0>>))>> ELSE <<-L>>, "i",
+                          IF LastLen(w) > 0 THEN LastLen(w) ELSE 1, Nd(L).lp))
+    \* SearchSorted(arg, array[, sorter = ArgSort(array)], side)
+    \/ /\ "SearchSorted" \in Ops
+       /\ \E ij \in Pairs : \E side \in {0, 1} :
+             /\ Nd(ij[1]).dt \in {"i", "f"} /\ Nd(ij[2]).dt = Nd(ij[1]).dt /\ Rank(ij[2]) = 1 /\ Static(ij[1]) /\ Static(ij[2]) /\ Rank(ij[1]) <= 2
+             /\ \/ Push(Node("SearchSorted", <<ij[1], ij[2]>>, <<side>>, Nd(ij[1]).sh, "i", LastLen(ij[2]) + 1, Lp2(ij[1], ij[2])))
+                \/ \E k \in 1..L : /\ Nd(k).op = "ArgSort" /\ Nd(k).d = <<ij[2]>>
+                                    /\ Push(Node("SearchSorted", <<ij[1], ij[2], k>>, <<side>>, Nd(ij[1]).sh, "i", LastLen(ij[2]) + 1, Lp2(ij[1], ij[2])))
+    \/ /\ "ArgSort" \in Ops /\ L >= 1 /\ Nd(L).dt \in {"i", "f"} /\ Rank(L) >= 1 /\ Static(L)
+       /\ Push(Node("ArgSort", <<L>>, <<>>, Nd(L).sh, "i", IF LastLen(L) > 0 THEN LastLen(L) ELSE 1, Nd(L).lp))
+    \/ /\ "UniqueMask" \in Ops /\ L >= 1 /\ Nd(L).dt \in {"i", "f"} /\ Rank(L) = 1 /\ Static(L)
+       /\ Push(Node("UniqueMask", <<L>>, <<>>, Nd(L).sh, "b", 0, Nd(L).lp))
+    \* UniqueInverse(mask, sorter): sorter must be a permutation: an ArgSort node or the constant permutations of the pool
+    \/ /\ "UniqueInverse" \in Ops
+       /\ \E ij \in Pairs : /\ Nd(ij[1]).dt = "b" /\ Rank(ij[1]) = 1 /\ Nd(ij[2]).dt = "i" /\ Nd(ij[2]).sh = Nd(ij[1]).sh /\ Static(ij[1])
+                            /\ (Nd(ij[2]).op = "ArgSort" \/ (Nd(ij[2]).op = "Const" /\ Nd(ij[2]).p \in {<<1, 1, 0, 1>>, <<2, 1, 0, 1, 1, 1>>}) \/ Nd(ij[2]).op = "Range")
+                            /\ Push(Node("UniqueInverse", <<ij[1], ij[2]>>, <<>>, Nd(ij[2]).sh, "i",
+                                         \* cumsum(mask) - 1 is an index only for a genuine unique mask (first entry set)
+                                         IF Nd(ij[1]).op = "UniqueMask" /\ LastLen(ij[2]) > 0 THEN LastLen(ij[2]) ELSE 0, Lp2(ij[1], ij[2])))
+    \/ /\ "SizesToOffsets" \in Ops /\ L >= 1 /\ Nd(L).dt = "i" /\ Rank(L) = 1 /\ Static(L) /\ Nd(L).ix > 0
+       /\ Push(Node("SizesToOffsets", <<L>>, <<>>, <<LastLen(L) + 1>>, "i", LastLen(L) * (Nd(L).ix - 1) + 1, Nd(L).lp))
+    \* CompressIndices(indices, length): length a constant scalar leaf
+    \/ /\ "CompressIndices" \in Ops
+       /\ \E ij \in Pairs : /\ Nd(ij[1]).dt = "i" /\ Rank(ij[1]) = 1 /\ Static(ij[1]) /\ Nd(ij[1]).ix > 0
+                            /\ Nd(ij[2]).op = "Const" /\ Nd(ij[2]).dt = "i" /\ Rank(ij[2]) = 0 /\ Nd(ij[2]).p[1] >= Nd(ij[1]).ix
+                            /\ Push(Node("CompressIndices", <<ij[1], ij[2]>>, <<>>, <<Nd(ij[2]).p[1] + 1>>, "i", LastLen(ij[1]) + 1, Lp2(ij[1], ij[2])))
 
 AddOp == /\ NOps < MaxOps
-         /\ \/ Unary("Negative", {"i", "f"}, FALSE) \/ Unary("Absolute", {"i", "f"}, FALSE) \/ Unary("Sign", {"i", "f"}, FALSE)
-            \/ Unary("Reciprocal", {"f"}, FALSE) \/ Unary("LogicalNot", {"b"}, FALSE)
-            \/ Binary("Multiply", {"b", "i", "f"}, "same") \/ Binary("Add", {"b", "i", "f"}, "same")
+         /\ \/ Unary("Negative", {"i", "f", "c"}, FALSE) \/ Unary("Absolute", {"i", "f"}, FALSE) \/ Unary("Sign", {"i", "f"}, FALSE)
+            \/ Unary("Reciprocal", {"f", "c"}, FALSE) \/ Unary("LogicalNot", {"b"}, FALSE)
+            \/ Binary("Multiply", {"b", "i", "f", "c"}, "same") \/ Binary("Add", {"b", "i", "f", "c"}, "same")
             \/ Binary("Minimum", {"i", "f"}, "same") \/ Binary("Maximum", {"i", "f"}, "same")
             \/ Binary("FloorDivide", {"i", "f"}, "same") \/ Binary("Mod", {"i", "f"}, "same")
-            \/ Binary("Equal", {"i", "f"}, "b") \/ Binary("Less", {"i", "f"}, "b") \/ Binary("Greater", {"i", "f"}, "b")
-            \/ APower \/ ACast \/ AInsert \/ ATransp \/ AReduce \/ ATakeOp \/ ATakeDiagOp \/ ADiagOp \/ AInflateOp
+            \/ Binary("Equal", {"i", "f", "c"}, "b") \/ Binary("Less", {"i", "f"}, "b") \/ Binary("Greater", {"i", "f"}, "b")
+            \/ APower \/ ACast \/ AComplex \/ AInsert \/ ATransp \/ AReduce \/ ATakeOp \/ ATakeDiagOp \/ ADiagOp \/ AInflateOp
             \/ ARavelOp \/ AUnravelOp \/ ARavelIndexOp \/ AChooseOp \/ AInRangeOp \/ ALinalg \/ APolyvalOp
-            \/ ALoopSumOp \/ ALoopConcatOp
+            \/ ALoopSumOp \/ ALoopConcatOp \/ AEinsumOp \/ APolyMulOp \/ APolyGradOp \/ APolyCountOp \/ ALegendreOp
+            \/ ADynOp \/ ASearchOp
 
 Init == nodes = <<>> /\ fam \in 1..Len(Families)
 Next == /\ L < MaxNodes
@@ -214,14 +394,12 @@ Spec == Init /\ [][Next]_<<nodes, fam>>
 Complete == L >= 1 /\ Nd(L).lp = {} /\ Unused = {L} /\ NOps >= EmitMin
 \* the typing attributes are consistent with ArraySem: checked on every complete
 \* program at one fixed environment (model-internal sanity of the builder)
-TestEnv == << ArgArr(<<2>>, <<1, 2>>, 0), ArgArr(<<2, 2>>, <<1, 2, 3, 5>>, 0), ArgArr(<<>>, <<2>>, 0),
-              ArgArr(<<3>>, <<1, 2, 3>>, 0), ArgArr(<<2>>, <<1, 0>>, 0), ArgArr(<<2>>, <<1, 0>>, 0),
-              ArgArr(<<2, 2, 2>>, <<1, 2, 3, 4, 5, 6, 7, 9>>, 0), ArgArr(<<3, 3>>, <<2, 1, 0, 1, 3, 1, 0, 1, 2>>, 0),
-              ArgArr(<<4>>, <<1, 2, 3, 4>>, 0) >>
 ShapeSound == Complete => Ev(nodes, L, TestEnv, <<0, 0>>).sh = Nd(L).sh
 IxSound == (Complete /\ Nd(L).ix > 0) =>
-              \A x \in {Ev(nodes, L, TestEnv, <<0, 0>>).v[e] : e \in 1..Prod(Nd(L).sh)} :
-                  DIsBad(x) \/ (IdxVal(x) >= 0 /\ IdxVal(x) < Nd(L).ix)
+              \A e \in 1..Prod(Nd(L).sh) :
+                  LET x == Ev(nodes, L, TestEnv, <<0, 0>>).v[e] IN
+                  IF Nd(L).dt = "c" THEN ZIsBad(x) \/ (x[2][1] = RZero /\ RIsInt(x[1][1]))
+                  ELSE DIsBad(x) \/ (IdxVal(x) >= 0 /\ IdxVal(x) < Nd(L).ix)
 
 Emit(x) == PrintT(<<"VF", ToJson(x)>>)
 JNode(n) == [op |-> n.op, d |-> n.d, p |-> n.p, sh |-> n.sh, dt |-> n.dt, ix |-> n.ix, cl |-> (n.lp = {})]
